@@ -48,12 +48,24 @@ def frame(draw):
     for name in ('mv0', 'mv1'):
         cells = draw(st.lists(mv_cell(), min_size=1, max_size=5))
         cols[name] = draw(st.lists(st.sampled_from(cells), min_size=n, max_size=n))
+    if n >= 30 and draw(st.integers(0, 7)) == 0:
+        # a tag-list column with 65-100 distinct tokens in one batch (more than any machine word has bits), 1-4 tokens per row
+        nt = draw(st.integers(65, 100))
+        seed = draw(st.integers(0, 10**6))
+        cols['mv0'] = ['-'.join(f't{(seed + 7 * i + 13 * j * j) % nt:03d}' for j in range(1 + (i + seed) % 4)) for i in range(n)]
+        cols['mv0'][0] = '-'.join(f't{j:03d}' for j in range(nt))       # one row carrying every token
     wide = n >= 40 and draw(st.integers(0, 3)) == 0      # many distinct values: > 128 (first, second) combinations for <->
+    confusable = not wide and n >= 4 and draw(st.integers(0, 5)) == 0
     for name in ('a', 'b', 'c'):
         if wide and name in ('a', 'b'):
             kk = draw(st.integers(11, 16))
             seq = draw(st.permutations(list(range(kk))))
             cols[name] = [f'{name}{seq[(i * (3 if name == "a" else 5) + i // kk) % kk]}' for i in range(n)]
+            continue
+        if confusable and name in ('a', 'b'):
+            # value pairs whose AND-joined texts coincide: ('uANDv','w') / ('u','vANDw'), ('uAND','v') / ('u','ANDv')
+            vals = ['u', 'uANDv', 'uAND'] if name == 'a' else ['vANDw', 'w', 'v', 'ANDv']
+            cols[name] = draw(st.lists(st.sampled_from(vals), min_size=n, max_size=n))
             continue
         k = draw(st.integers(1, 4))
         vals = draw(st.lists(st.sampled_from(PLAIN), min_size=k, max_size=k, unique=True))
@@ -82,8 +94,8 @@ def case_multivalue(draw):
 def case_sub(draw):
     fr = draw(frame())
     mapping = draw(sub_specs())
-    if max(len(set(fr['cols'][c])) for c in ('a', 'b')) > 10 and draw(st.booleans()):
-        mapping = draw(st.sampled_from(['a<->b', 'b<->a', 'a<->b;c->a']))      # > 128 (first, second) value combinations
+    if (max(len(set(fr['cols'][c])) for c in ('a', 'b')) > 10 or 'uANDv' in fr['cols']['a'] or 'uAND' in fr['cols']['a']) and draw(st.booleans()):
+        mapping = draw(st.sampled_from(['a<->b', 'b<->a', 'a<->b;c->a']))      # > 128 (first, second) value combinations / confusable joins
     return {'frame': fr, 'mapping': mapping}
 
 
@@ -118,6 +130,14 @@ def case_chain(draw):
         flags['heuristic'] = 'MI-numba-randomized' if flags['heuristic'] != 'Constant' else 'Constant'
         if flags['sub'] != 'False' and flags['sub'].count(';') >= 1:
             flags['sub'] = flags['sub'].split(';')[0]
+    if len(set(fr['cols']['mv0'])) > 12:
+        # the many-token column: 65-100 indicator columns, or one sub-feature per distinct cell - keep the rest of the chain
+        # linear in the number of columns
+        flags['order'] = 1
+        flags['heuristic'] = 'Constant' if flags['heuristic'] == 'Constant' else 'MI-numba-randomized'
+        if 'mv0' in flags['sub'] or flags['multivalue'] != 'False':
+            flags['sub'] = 'False'
+        flags['transformers'] = 'none'
     return {'frame': fr, 'flags': flags, 'missing': draw(st.sampled_from(MISSING_SETS)),
             'np_seed': draw(st.integers(0, 2**31))}
 
